@@ -96,6 +96,16 @@ def ev_call(ex, n, st, spec, b):
             return E(n.args[0]).off
         if name == "seq_eq":
             return str_eq(as_str(E(n.args[0])), as_str(E(n.args[1])))
+        if name in ("tally_len", "tally_id", "tally_key", "rc_total"):
+            t_ = st.env.get("$tally")
+            if name == "rc_total":
+                return st.env.get("$rc_total", z3.IntVal(0))
+            if t_ is None:
+                t_ = SeqV(z3.K(I, z3.IntVal(0)), z3.IntVal(0), None)
+            if name == "tally_len":
+                return t_.n
+            k_ = st.env.get("$tally_key", t_)
+            return (t_ if name == "tally_id" else k_).arr[zint(E(n.args[0]))]
         if name == "nprinted":
             return st.env.get("$nprinted", z3.IntVal(0))
         if name == "cg":
